@@ -208,6 +208,18 @@ def r_pure(prog, R, rid):
     r.require(n >= 8, "fewer than 8 numeric setter arguments found in the record parser")
 
 
+def _is_false_test(c3, p3):
+    """the atom says 'the call returned false': !f(), f() == ARES_FALSE / 0, (f() != ARES_TRUE)"""
+    op, l3, r3 = norm_cmp(c3, p3)
+    if op == "false":
+        return True
+    if r3 is not None and op == "==" and (name_of_const(r3) == "ARES_FALSE" or const_val(r3) == 0):
+        return True
+    if r3 is not None and op == "!=" and name_of_const(r3) == "ARES_TRUE":
+        return True
+    return False
+
+
 def r_valid(prog, R, rid):
     """what the parser demands of a character-string field, the writer demands too"""
     r = R.rule(rid, "the writer refuses what the parser would refuse: a character-string field is written only if it is printable (the parser validates that), and a "
@@ -251,7 +263,7 @@ def r_valid(prog, R, rid):
                 if cs is not None and cs.get("k") == "call":
                     full = wstr.call_by_id(cs["id"]) if cs.get("ref") else None
                     cn = full[2] if full else cs
-                    if cn.get("callee") == "ares_str_isprint" and norm_cmp(c3, p3)[0] in ("false",):
+                    if cn.get("callee") == "ares_str_isprint" and _is_false_test(c3, p3):
                         w_print = True
     # strings stored outside the character-string format (URI target): the parser validates them in place before ares_dns_rr_set_str_own
     for f in sorted(prog.funcs.values(), key=lambda x: x.key):
@@ -281,7 +293,7 @@ def r_valid(prog, R, rid):
                         if cs is not None and cs.get("k") == "call":
                             full = g.call_by_id(cs["id"]) if cs.get("ref") else None
                             cn = full[2] if full else cs
-                            if cn.get("callee") == "ares_str_isprint" and norm_cmp(c3, p3)[0] == "false":
+                            if cn.get("callee") == "ares_str_isprint" and _is_false_test(c3, p3):
                                 checks = True
             if checks:
                 r.ok(k, g.loc(c2["ln"]))
